@@ -12,7 +12,7 @@ Definition ztendiag := @tendiag Z 0%Z.
 Definition zsptendiag := @sptendiag Z 0%Z Z.add zisz.
 
 (* the reducers exercised by the correspondence stream (numpy_groupies names + callables) *)
-Inductive reducer := RSum | RMax | RMin | RProd | RFirst | RLast | RLen | RFirstMinusRest | RTenFirstPlusLast.
+Inductive reducer := RSum | RMax | RMin | RProd | RFirst | RLast | RLen | RFirstMinusRest | RTenFirstPlusLast | RMean.
 Definition zreduce (r : reducer) (l : list Z) : Z :=
   match r with
   | RSum => fold_right Z.add 0%Z l
@@ -24,6 +24,8 @@ Definition zreduce (r : reducer) (l : list Z) : Z :=
   | RLen => Z.of_nat (length l)
   | RFirstMinusRest => match l with [] => 0%Z | x :: t => (x - fold_right Z.add 0 t)%Z end
   | RTenFirstPlusLast => (10 * hd 0 l + last l 0)%Z
+  (* mean: generated only with group sums divisible by the group size (exact) *)
+  | RMean => match l with [] => 0%Z | _ => (fold_right Z.add 0 l / Z.of_nat (length l))%Z end
   end.
 Definition zaggregator (so : option shape) (N : nat) (subs : list idx) (vals : list Z) (r : reducer) : option (sparse Z) :=
   @from_aggregator_chk Z zisz so N subs vals (zreduce r).
@@ -78,7 +80,13 @@ Definition a46_region (cnt_impl : option nat) (s : shape) (draws : list (list (l
 (* pyttb must agree with the faithful model of the REPAIRED code (request normalisation, redraw loop on the captured
    draws, raw stored lists, number of draws consumed; a zero count gives the empty tensor).  Only inside the trigger
    region of an open finding is the property's own requirement accepted as an alternative (a repaired pyttb stays
-   silent there): well-formed, requested shape, exactly the requested number of nonzeros. *)
+   silent there): well-formed, requested shape, exactly the requested number of nonzeros; inside the A-46 region also
+   the exact behaviour of the proposed repair (which can still end short when all ten draws together hold too few
+   distinct rows). *)
+(* the proposed repair of A-46 (union of all draws as a fallback, C20Gen.sprand_subs_union): raw equality + draws consumed *)
+Definition sprand_union_agrees (nz : nat) (s : shape) (draws : list (list (list Z))) (vals : list Z) (ndraws : nat)
+           (obs : sparse Z) : bool :=
+  sp_raw_eqb obs (mkSp s (sprand_subs_union nz s draws) vals) && Nat.eqb ndraws (sprand_consumed nz s draws).
 Definition sprand_call_ok (cnt_impl cnt_spec : option nat) (s : shape) (draws : list (list (list Z))) (vals : list Z)
            (ndraws : nat) (obs : sobs) : bool :=
   match cnt_impl, obs with
@@ -90,6 +98,11 @@ Definition sprand_call_ok (cnt_impl cnt_spec : option nat) (s : shape) (draws : 
       match cnt_spec, obs with
       | None, SRej => true
       | Some nz, SOk o => sprand_spec nz s o
+      | _, _ => false
+      end)
+  || (a46_region cnt_impl s draws &&
+      match cnt_impl, obs with
+      | Some nz, SOk o => sprand_union_agrees nz s draws vals ndraws o
       | _, _ => false
       end).
 
@@ -112,3 +125,30 @@ Definition zsptendiag_z (e : list Z) (so : option (list Z)) : sparse Z := zspten
    happen when there is no element at all (N = 0) and the requested shape holds a non-positive size *)
 Definition zsptendiag_chk (e : list Z) (s : list Z) : option (sparse Z) :=
   if forallb (fun d => (0 <? Z.max (Z.of_nat (length e)) d)%Z) s then Some (zsptendiag_z e (Some s)) else None.
+
+(* ---- wave 3: corner requests ---- *)
+(* from_aggregator with sizes written as Z: tt_sizecheck rejects a size below one; without a shape and without a
+   subscript there is nothing to infer the shape from (rejected) *)
+Definition zaggregator_z (so : option (list Z)) (N : nat) (subs : list idx) (vals : list Z) (r : reducer) : option (sparse Z) :=
+  match so with
+  | Some s => if forallb (fun d => (0 <? d)%Z) s then zaggregator (Some (to_shape s)) N subs vals r else None
+  | None => match subs with [] => None | _ => zaggregator None N subs vals r end
+  end.
+(* the constructed shape of tendiag / sptendiag for an optional requested shape with sizes in Z *)
+Definition diag_shape_z (N : nat) (so : option (list Z)) : shape :=
+  match so with None => repeat N N | Some s => pyttb_diag_shape N s end.
+(* tendiag, every request (no element, empty shape included): what the property demands.  An order-0 dense tensor
+   cannot be generated (tenzeros rejects the empty shape, C20_dense_generator_guard), so the request is rejected
+   exactly when the constructed shape is empty; with no element and a non-empty shape the result is the zero tensor *)
+Definition ztendiag_req (e : list Z) (so : option (list Z)) : option (dense Z) :=
+  match diag_shape_z (length e) so with [] => None | _ => Some (ztendiag_z e so) end.
+(* sptendiag, every request: an order-0 tensor cannot carry diagonal elements (rejected when there are elements and
+   the constructed shape is empty); sizes below one are rejected by the sparse constructor (only without elements) *)
+Definition zsptendiag_req (e : list Z) (so : option (list Z)) : option (sparse Z) :=
+  match diag_shape_z (length e) so, e with
+  | [], _ :: _ => None
+  | _, _ => match so with
+            | Some s => zsptendiag_chk e s
+            | None => Some (zsptendiag e None)
+            end
+  end.
